@@ -12,9 +12,9 @@ THEOREMS = ["C16_ref_call_roundtrip", "C16_ref_call_sound", "C16_uaddr4_roundtri
             "C16_proto_udp_monitor", "C16_proto_tcp_monitor", "C16_proto_udp_structured", "C16_proto_tcp_structured",
             "C16_parser_steps_safe", "C16_build_never_panics", "C16_pstate_panic_unreachable", "C16_examples", "C16_known_class_witness",
             "C11rpc.C11_rpc_parse_fold", "C11rpc.C11_rpc_first_call", "C11rpc.C11_rpc_first_reply_decodes",
-            "C11rpc.C11_rpc_reset_after_message", "C11rpc.C11_rpc_two_calls", "C16frame.C16_frame_udp_at", "C16frame.C16_frame_udp", "C16frame.C16_frame_tcp_first_state_at", "C16frame.C16_frame_tcp_first_history_at", "C16frame.C16_frame_tcp_first", "C16frame.C16_frame_udp_identified", "C16frame.C16_frame_tcp_identified", "C16frame.C16_ident_from_C10", "C16frame.C16_frame_examples", "Current.Glue_ref_chk_sound", "Current.Glue_tbl_chk_sound", "Current.C16_class_covers_C10_class", "Current.C16_current_ident", "Current.C16_class_unidentified", "Current.C16_class_exact", "Current.C16_current_frame_udp", "Current.C16_current_frame_tcp_first", "Current.C16_current_frame_tcp_first_state", "Current.C16_current_examples", "C16ip6.C16_ip6_text_roundtrip", "C16ip6.C16_render_ipv6_injective", "C16ip6.C16_uaddr6_roundtrip", "C16ip6.C16_uaddr_ok_expected", "C16ip6.C16_uaddr_ok_sound", "C16ip6.C16_uaddr_ok_wf", "C16ip6.C16_ip6_reader_wf", "C16ip6.C16_ip6_any_compression", "C16ip6.C16_ip6_stmts", "C16ip6.C16_ip6_examples_dsts", "C16ip6.C16_ip6_examples_rejected", "C16ip6.C16_ip6_examples_alt", "C16ip6.C16_ip6_examples_patterns", "C16ip6.C16_ip6_examples_uaddr_ok", "Env.the_env_ok"]
-MONITORS = ["C16udp", "C16tcp", "C16udp_strict", "C16tcp_strict"]
-STRICT = ("C16udp_strict", "C16tcp_strict")
+            "C11rpc.C11_rpc_reset_after_message", "C11rpc.C11_rpc_two_calls", "C16frame.C16_frame_udp_at", "C16frame.C16_frame_udp", "C16frame.C16_frame_tcp_first_state_at", "C16frame.C16_frame_tcp_first_history_at", "C16frame.C16_frame_tcp_first", "C16frame.C16_frame_udp_identified", "C16frame.C16_frame_tcp_identified", "C16frame.C16_ident_from_C10", "C16frame.C16_frame_examples", "Current.Glue_ref_chk_sound", "Current.Glue_tbl_chk_sound", "Current.C16_class_covers_C10_class", "Current.C16_current_ident", "Current.C16_class_unidentified", "Current.C16_class_exact", "Current.C16_current_frame_udp", "Current.C16_current_frame_tcp_first", "Current.C16_current_frame_tcp_first_state", "Current.C16_current_examples", "C16ip6.C16_ip6_text_roundtrip", "C16ip6.C16_render_ipv6_injective", "C16ip6.C16_uaddr6_roundtrip", "C16ip6.C16_uaddr_ok_expected", "C16ip6.C16_uaddr_ok_sound", "C16ip6.C16_uaddr_ok_wf", "C16ip6.C16_ip6_reader_wf", "C16ip6.C16_ip6_any_compression", "C16ip6.C16_ip6_stmts", "C16ip6.C16_ip6_examples_dsts", "C16ip6.C16_ip6_examples_rejected", "C16ip6.C16_ip6_examples_alt", "C16ip6.C16_ip6_examples_patterns", "C16ip6.C16_ip6_examples_uaddr_ok", "C16ref.C16_ref_implied", "C16ref.C16_ref_frame_ctx_wf", "C16ref.C16_ref_needs_wf", "C16ref.C16_ref_udp_implied", "C16ref.C16_ref_udp_strict_implied", "C16ref.C16_ref_tcp_implied", "C16ref.C16_ref_tcp_strict_implied", "C16ref.C16_ref_getaddr_sound", "C16ref.C16_ref_dump_sound", "C16ref.C16_proto_udp_monitor_ref", "C16ref.C16_proto_tcp_monitor_ref", "C16ref.C16_current_frame_udp_ref", "C16ref.C16_current_frame_tcp_first_ref", "C16ref.C16_current_frame_tcp_first_state_ref", "C16ref.C16_ref_examples_getaddr", "C16ref.C16_ref_examples_dump", "C16ref.C16_ref_examples_model", "C16ref.C16_ref_examples_frames", "Env.the_env_ok"]
+MONITORS = ["C16udp", "C16tcp", "C16udp_strict", "C16tcp_strict", "C16udp_ref", "C16tcp_ref", "C16udp_ref_strict", "C16tcp_ref_strict"]
+STRICT = ("C16udp_strict", "C16tcp_strict", "C16udp_ref_strict", "C16tcp_ref_strict")
 RULE = ("ONC-RPC calls built by an independent Python encoder: xids with every first byte 0..255 (inside and outside the "
         "shadow set), all 256 programs 99840..100095, versions {0..6, 104316, random}, all procedures 0..255 for the "
         "portmapper and a grid elsewhere, credential lengths 0..64 XDR-padded and unpadded, verifier lengths 0..16, RPC "
